@@ -241,13 +241,13 @@ theorem mem_keys_padLang (P : List (Str × List (Str × Unit))) (ps : Paths) (p 
     p ∈ keys (padLang P ps) ↔ p ∈ keys ps ∨ p ∈ keys P := by
   unfold padLang
   exact mem_keys_foldl_upd
-    (fun pc o => pc.2.foldl (fun fs c => upd c.1 (fun o3 => o3.getD true) fs) (o.getD [])) P ps p
+    (fun pc o => pc.2.foldl (fun fs c => upd c.1 (fun o3 => o3.getD dashStr) fs) (o.getD [])) P ps p
 
 theorem nodup_keys_padLang (P : List (Str × List (Str × Unit))) (ps : Paths) (h : (keys ps).Nodup) :
     (keys (padLang P ps)).Nodup := by
   unfold padLang
   exact nodup_keys_foldl_upd
-    (fun pc o => pc.2.foldl (fun fs c => upd c.1 (fun o3 => o3.getD true) fs) (o.getD [])) P ps h
+    (fun pc o => pc.2.foldl (fun fs c => upd c.1 (fun o3 => o3.getD dashStr) fs) (o.getD [])) P ps h
 
 theorem keys_choicePaths (lists : List CList) : keys (choicePaths lists) = lists.flatMap listIds := by
   simp [choicePaths, keys, List.map_map, Function.comp_def]
@@ -297,11 +297,11 @@ theorem entsOf_nonempty (dl p form : Str) {v : Txt} (h1 : v ≠ .none) (h2 : v.w
     ∃ e ∈ entsOf dl p form v, e.path = p := by
   cases v with
   | none => exact absurd rfl h1
-  | str s => exact ⟨⟨dl, p, form, isDash s⟩, by simp [entsOf, langsOf], rfl⟩
+  | str s => exact ⟨⟨dl, p, form, s⟩, by simp [entsOf, langsOf], rfl⟩
   | dict l =>
     cases l with
     | nil => simp [Txt.wf] at h2
-    | cons kv rest => exact ⟨⟨kv.1, p, form, isDash kv.2⟩, by simp [entsOf, langsOf], rfl⟩
+    | cons kv rest => exact ⟨⟨kv.1, p, form, kv.2⟩, by simp [entsOf, langsOf], rfl⟩
 
 theorem dict_nonempty_wf {l : List (Str × Str)} (h : (Txt.dict l).wf = true) : Txt.dict l ≠ .none ∧ (Txt.dict l).wf = true :=
   ⟨(by intro h'; cases h'), h⟩
